@@ -311,7 +311,7 @@ def gen_pmm_case(rng, sel, tier_max_frames=600, big_drain=0.0):
         # allocator state of 1-3 pages ending next to a page boundary
         regions = gen_boundary_map(rng)
         ks, ke, how = place_kernel(rng, regions)
-        ops, style = gen_ops_big(rng, regions, rng.random() < big_drain)
+        ops, style = gen_ops_big(rng, regions, rng.random() < big_drain and avail_frames(regions) < 40000)
         return [sel] + enc_map(regions) + [ks, ke, RESERVE_LIMIT, 0] + ops, 'boundary:' + how + '/' + style
     if scen < 0.24:
         # kernel image over several bitmap words, every first/last offset modulo 64
@@ -394,7 +394,12 @@ def shrink_pmm(nums):
         if l > 3 * PAGE:
             yield build(regs[:j] + [(a, l - (l // (2 * PAGE)) * PAGE, t)] + regs[j + 1:], items)
 
-PMM_RULE = ('memory maps as for C02 (1-6 regions, word-boundary frame counts 1/63/64/65/127/128/129/200 and random <= 600, aligned or '
+PMM_RULE = ('maps start in low memory or around/above 4 GiB, 1 TiB, 16 TiB (frame numbers >= 2^32); 10% of the cases have 2-6 pools of '
+            '30k-100k frames whose allocator state (1-3 pages) ends within a few words of a page boundary, tiny first pools '
+            'included (early-boot frames from several regions), memory behind the reserved block filled with a canary; 14% have a '
+            'kernel image of 65-200 frames whose first/last frame sits at offset 0,1,62,63,random modulo 64 of its pool; frees '
+            'include frame numbers aliasing managed frames modulo 2^8..2^52 and byte addresses; thorough tier also drains ~30k-frame '
+            'maps completely; otherwise memory maps as for C02 (1-6 regions, word-boundary frame counts 1/63/64/65/127/128/129/200 and random <= 600, aligned or '
             'unaligned, sub-page regions, non-available types interleaved), kernel image at start/middle/end/whole/tail of a random '
             'available region; pmm.Init with the reserve seam failing in ~3% and the map seam in ~4% of the cases; then an op history: '
             'drain(+0..2), alloc-heavy, free-heavy, churn, bad frees (never-allocated, out-of-pool, twice-freed, arbitrary 64-bit '
